@@ -64,14 +64,34 @@ def props_program(draw):
         {"op": "MKCOL", "fe": draw(gen_prog.FE), "coll": "x1", "kind": "plain"},
     ]
     colls = ["c1", "c1", "a1", "a1", "x1"] + (["b1", "b1"] if bmeta else [])
+    last_set = {}
     for _ in range(draw(st.integers(8, 22))):
-        op = draw(st.sampled_from(["SET"] * 8 + ["REMOVE", "REMOVE", "PUT", "DELETE", "RESTART", "RESTART", "MKCOL", "MKCOL", "PROPFIND", "RETYPE"]))
+        op = draw(st.sampled_from(["SET"] * 8 + ["REMOVE", "REMOVE", "PUT", "DELETE", "RESTART", "RESTART", "MKCOL", "MKCOL", "PROPFIND", "RETYPE", "RESPELL", "RESPELL"]))
         fe = draw(gen_prog.FE)
         afe = draw(st.sampled_from(["wsgi", "aio"]))
         coll = draw(st.sampled_from(colls))
         semi = not (coll == "b1" and bmeta == "config")
+        if op == "RESPELL":
+            # a value set earlier is set again in another spelling that differs only in letter case, or with a
+            # character appended or dropped: the new spelling is what must be read back
+            earlier = [(c_, k_, v_) for (c_, k_), v_ in sorted(last_set.items())]
+            if not earlier:
+                op = "SET"
+            else:
+                c_, k_, v_ = draw(st.sampled_from(earlier))
+                v2 = draw(st.sampled_from([v_.swapcase(), v_.upper(), v_.lower()]))
+                if k_ not in (P_CALCOLOR, P_ABCOLOR, P_CALORDER) and draw(st.booleans()):
+                    v2 = draw(st.sampled_from([v_ + "x", v_[:-1] or "y", v_.title()]))
+                if v2 != v_ and v2.strip() == v2 and v2:
+                    steps.append({"op": "PROPPATCH", "fe": fe, "afe": afe, "coll": c_, "set": [[k_, v2]], "remove": []})
+                    last_set[(c_, k_)] = v2
+                    gen_prog.wrap_locked(draw, steps, 0)
+                    continue
+                op = "SET"
         if op == "SET":
             sets = [draw(one_set(semi)) for _ in range(draw(st.sampled_from([1, 1, 2])))]
+            for k_, v_ in sets:
+                last_set[(coll, k_)] = v_
             steps.append({"op": "PROPPATCH", "fe": fe, "afe": afe, "coll": coll, "set": sets, "remove": []})
         elif op == "REMOVE":
             if draw(st.booleans()):
